@@ -16,6 +16,7 @@ type Row struct {
 	rowCellCallbacks   callbackSet
 	rowItselfCallbacks callbackSet
 	inTable            *ATable
+	alsoInTables       []*ATable // tables the row was added to before inTable (a row may be in several)
 	isSeparator        bool
 	rowNum             int
 }
@@ -70,6 +71,9 @@ func (r *Row) Add(c Cell) *Row {
 	if r.inTable != nil {
 		// the row is already part of a table: keep the table's column count in step
 		r.inTable.resizeColumnsAtLeast(column)
+		for _, t := range r.alsoInTables {
+			t.resizeColumnsAtLeast(column)
+		}
 	}
 	// errors go to the row itself: it creates its container on demand, and once
 	// the row is in a table that is the table's container
